@@ -116,7 +116,15 @@ impl TxtppPath for PathBuf {
                 Report::new(PathError::from(self))
                     .attach_printable(format!("path does not have {TXTPP_EXT} extension"))
             })?;
-            p.set_extension(self_ext);
+            // append instead of `set_extension`: what is left may itself contain dots
+            // (`a.b.txtpp.c` -> `a.b.c`, not `a.c`)
+            let mut name = match p.file_name() {
+                Some(name) => name.to_os_string(),
+                None => OsString::new(),
+            };
+            name.push(".");
+            name.push(self_ext);
+            p.set_file_name(name);
         }
 
         Ok(p)
